@@ -511,12 +511,22 @@ func corpus(r *core.Run) {
 	}
 	// 8b. a command sent the moment the previous response arrives keeps its response handler (fixed: the
 	// database-side goroutine reset the handler after writing the response; the COM_STMT_PREPARE_OK was relayed
-	// unregistered and the parameters of the COM_STMT_EXECUTE were forwarded in clear – about 1 attempt in 7)
+	// unregistered and the parameters of the COM_STMT_EXECUTE were forwarded in clear – about 1 free-running attempt in 7)
 	{
 		r.Begin("corpus-my-response-handler-race", true, "case:corpus")
 		leaked, broken := 0, 0
-		for k := 0; k < 30; k++ {
-			w, a := myOpen()
+		for k := 0; k < 3; k++ {
+			// gated schedule: the database-side goroutine is held after each packet it wrote to the client until
+			// the client-side goroutine has handled the client's next command – the order in which the defect shows
+			w, err := NewMyWorld(corpusYAML, ks, myTabs, rd.Bytes(1<<14))
+			if err != nil {
+				panic("harness: " + err.Error())
+			}
+			w.Gated = true
+			a, err := w.Open("alice", 0)
+			if err != nil {
+				panic("harness: " + err.Error())
+			}
 			a.C.Query("insert into t1 (id, data) values (1, 'old')")
 			st, _, err := a.C.Prepare("insert into t1 (id, data) values (?, ?)")
 			if err == nil && st != nil {
@@ -528,10 +538,20 @@ func corpus(r *core.Run) {
 			if bytes.Contains(w.DB.In.Bytes(), []byte("SECRETMARKER13")) {
 				leaked++
 			}
+			// a result set right after a prepared statement without parameters and columns: relayed by the right handler
+			if err == nil {
+				if st2, _, err2 := a.C.Prepare("insert into t1 (id, data) values (3, 'x')"); err2 == nil && st2 != nil {
+					a.C.Execute(st2, nil, true)
+				}
+				res, err2 := a.C.Query("select data from t1 where id = 2")
+				if err2 != nil || res.Err != "" || len(res.Rows) != 1 || res.Rows[0][0] == nil || string(*res.Rows[0][0]) != "SECRETMARKER13" {
+					broken++
+				}
+			}
 			w.Close()
 		}
-		r.Check(broken == 0, "session-broken", fmt.Sprintf("corpus 8b: %d of 30 sessions broke", broken))
-		r.Check(leaked == 0, "plaintext-at-database", fmt.Sprintf("COM_STMT_PREPARE sent right after the response of a COM_QUERY: in %d of 30 sessions the statement was not registered and the COM_STMT_EXECUTE parameter of the encrypted column reached the database in clear (decryptor/mysql/response_proxy.go: handler reset after the response was written)", leaked))
+		r.Check(broken == 0, "owner-read-mismatch", fmt.Sprintf("corpus 8b: %d of 3 gated sessions broke or delivered an undecrypted result", broken))
+		r.Check(leaked == 0, "plaintext-at-database", fmt.Sprintf("COM_STMT_PREPARE sent right after the response of a COM_QUERY: in %d of 3 gated sessions the statement was not registered and the COM_STMT_EXECUTE parameter of the encrypted column reached the database in clear (decryptor/mysql/response_proxy.go: handler reset after the response was written)", leaked))
 	}
 	// 8c. a text row whose first column is the empty string (fixed: taken for the end of the result set, the rows
 	// were relayed undecrypted)
@@ -559,6 +579,21 @@ func corpus(r *core.Run) {
 		_, _, err = a.C.Prepare("select note from t1 where id = ? and note = ?")
 		cin1, _ := a.C.Marks()
 		r.Check(err == nil && bytes.Equal(a.C.In.Bytes()[cin0:cin1], w.DB.Out.Bytes()[dout0:]), "my-paramdef-stale-settings", "COM_STMT_PREPARE of a statement without protected parameters after a prepared INSERT into a data_type column: the definition of the parameter with the same index comes back rewritten")
+		w.Close()
+	}
+	// 8e. KNOWN: re-execution of a prepared statement without repeating the parameter types
+	{
+		r.Begin("corpus-my-execute-rebind-flag-0", true, "case:corpus")
+		w, a := myOpen()
+		st, _, err := a.C.Prepare("insert into t1 (id, data) values (?, ?)")
+		ok := false
+		if err == nil && st != nil {
+			a.C.Execute(st, []fakemy.Param{{Type: fakemy.TypeLong, Data: []byte("1")}, {Type: fakemy.TypeVarString, Data: []byte("SECRETMARKER16")}}, true)
+			res, err := a.C.Execute(st, []fakemy.Param{{Type: fakemy.TypeLong, Data: []byte("2")}, {Type: fakemy.TypeVarString, Data: []byte("SECRETMARKER17")}}, false)
+			ok = err == nil && res != nil && res.Err == "" && a.panicked() == nil
+		}
+		r.Check(!bytes.Contains(w.DB.In.Bytes(), []byte("SECRETMARKER1")), "plaintext-at-database", "corpus 8e: re-executed prepared INSERT: plaintext reached the database")
+		r.Check(ok, "my-execute-rebind-flag-0", "second COM_STMT_EXECUTE of a prepared INSERT with new_params_bind_flag = 0: the proxy panics on the nil bound values and drops the connection")
 		w.Close()
 	}
 	// 9. KNOWN: INSERT … SELECT is not analysed (both front ends)
